@@ -89,7 +89,7 @@ func buildKeys() (keys []keySpec, keyByName map[string]int) {
 	addKey(keySpec{Name: "-0", Kind: spInt, JS: "-0", Str: "0"})
 	addKey(keySpec{Name: "1.5", Kind: spInt, JS: "1.5", Str: "1.5"})
 	addKey(keySpec{Name: "7", Kind: spInt, JS: "7", Str: "7"})
-	for _, n := range []string{"0", "1", "2", "3", "01", "-0", "1.5", "4294967294", "4294967295", "5000", "NaN", "Infinity", "a", "b", "c", "length", "prototype", "name", "callee", "caller", "arguments", "__proto__", "constructor", "sm", "g", "z", "A", "M"} {
+	for _, n := range []string{"0", "1", "2", "3", "01", "-0", "1.5", "4294967294", "4294967295", "5000", "NaN", "Infinity", "a", "b", "c", "length", "prototype", "name", "callee", "caller", "arguments", "__proto__", "constructor", "sm", "g", "z", "A", "M", "PI", "abs"} {
 		id := n[0] >= 'a' && n[0] <= 'z' || n[0] >= 'A' && n[0] <= 'Z' || n[0] == '_'
 		addKey(keySpec{Name: `"` + n + `"`, Kind: spStr, JS: `"` + n + `"`, Str: n, Ident: id})
 	}
@@ -97,6 +97,7 @@ func buildKeys() (keys []keySpec, keyByName map[string]int) {
 	addKey(keySpec{Name: "@s2", Kind: spSym, JS: "H.s2", Sym: "s2"})
 	addKey(keySpec{Name: "@toPrimitive", Kind: spSym, JS: "Symbol.toPrimitive", Sym: "toPrimitive"})
 	addKey(keySpec{Name: "@iterator", Kind: spSym, JS: "Symbol.iterator", Sym: "iterator"})
+	addKey(keySpec{Name: "@toStringTag", Kind: spSym, JS: "Symbol.toStringTag", Sym: "toStringTag"})
 	return
 }
 
